@@ -117,6 +117,20 @@ def r_add_scan(model, rep, tier):
     img = P(cx.params[3])
     im = ("attr", S, "images")
     rs = [ev for ev in cx.events if ev.kind == "raise" and len(ev.loops) == 3]
+    refusal_ev = rs[0] if len(rs) == 1 else None
+    if not rs:
+        # the scan extracted into a search helper returning the first conflicting image or None; the caller raises on a hit
+        hits = [ev for ev in cx.events if ev.kind == "bind" and ev.extra == "inlined-return" and len(ev.loops) == 3]
+        for r_ in [ev for ev in cx.events if ev.kind == "raise" and not ev.loops]:
+            for g_ in facts.own_guards(cx, r_):
+                t_, pol_ = facts.canon_guard(g_)
+                if t_[0] == "cmp" and t_[1] == ("is",) and not pol_ and ("const", None) in t_[2]:
+                    found = [x for x in t_[2] if x != ("const", None)]
+                    alts_ = T.alts(found[0]) if found else []
+                    mine = [h for h in hits if h.value in alts_]
+                    if len(mine) == 1 and set(alts_) == {mine[0].value, ("const", None)}:
+                        rs = [mine[0]]
+                        refusal_ev = r_
     ok, msg = len(rs) == 1, "no refusal inside a scan of all cells"
     if ok:
         e = rs[0]
@@ -138,12 +152,13 @@ def r_add_scan(model, rep, tier):
             ok = facts.guard_atoms(inner) == {facts.canon_guard((same, True)), facts.canon_guard((diff, True))}
             msg = "the refusal must be conditioned exactly on: same identity (identify_image) and different checksums"
         if ok:
-            exc = e.value
+            exc = refusal_ev.value
             ok = exc[0] == "call" and exc[1] == ("global", "ValueError")
             msg = "an identity collision must raise ValueError"
         if ok:
             # gate
-            gts = [g for g in e.guards if facts.gate_term_value(g[0], (1, 1)) is not None]
+            gts = [g for g in tuple(e.guards) + tuple(refusal_ev.guards) if facts.gate_term_value(g[0], (1, 1)) is not None]
+            gts = [g for i_, g in enumerate(gts) if g not in gts[:i_]]
             grid = facts.version_grid(tier)
             ok = len(gts) == 1 and all((facts.gate_term_value(gts[0][0], v_) == gts[0][1]) == (v_ >= (1, 1)) for v_ in grid)
             msg = "uniqueness must be enforced exactly for header versions >= 1.1"
@@ -153,7 +168,7 @@ def r_add_scan(model, rep, tier):
     bad = [ev for ev in cx.events if ev.kind in ("break", "return") and set(l[0] for l in ev.loops) & lids]
     rep.ob("R-ADD-SCAN", "Images.add:scan-not-cut-short", not bad, site=cx.site(f.node),
            msg="" if not bad else "%s inside the collision scan (line %s)" % (bad[0].kind, bad[0].lineno))
-    r_add_insertion(model, rep, after=rs[0].seq if rs else None)
+    r_add_insertion(model, rep, after=refusal_ev.seq if refusal_ev is not None else None)
 
 
 def r_add_insertion(model, rep, rule_id="R-ADD-SCAN", after=None):
@@ -473,10 +488,11 @@ def r_src_route(model, rep):
         it = ("sub", ("sub", ("sub", data, ("const", "payload")), ("const", "images")), variant)
         el = ("elem", it, m.loops[0][0])
         skip = ("cmp", ("==",), (el, ("const", "src")))
-        ok = m.loops[0][1] == it and m.value[2] == (variant, el, image) and list(m.guards) == [(issrc, True), (skip, False)]
+        ok = m.loops[0][1] == it and m.value[2] == (variant, el, image) \
+            and facts.guard_atoms(m.guards) == {facts.canon_guard((issrc, True)), facts.canon_guard((skip, False))}
         msg = "a 'src' image must be re-filed under every architecture of the same variant in the document except 'src' itself"
         if ok:
-            ok = p.value[2] == (variant, arch, image) and list(p.guards) == [(issrc, False)]
+            ok = p.value[2] == (variant, arch, image) and facts.guard_atoms(p.guards) == {facts.canon_guard((issrc, False))}
             msg = "a binary-arch image must be filed under its own (variant, arch)"
     rep.ob("R-SRC-ROUTE", "Images._add_1_1", ok, site=cx.site(f.node), msg="" if ok else msg)
     # rpms 0.3
